@@ -12,7 +12,7 @@ from z3 import And, Or, Not, BoolVal, IntVal, simplify, is_true, is_false
 
 from . import source
 from .engine import (_has_quant, State, Interp, Env, Unsupported, PathEnd, PyRaise, _Return, _Break, _Continue,
-                     Obligation, exc_matches)
+                     Obligation, exc_matches, spec_matches)
 from .contracts import A, REG, short
 from .sval import FRESH, ExcVal, ORef, MRef, literal_facts
 from . import loops  # noqa: F401  (mixes loop handling into Interp)
@@ -183,7 +183,7 @@ def check_post(ip, c, a, old, kind, res):
         exc = res
         matched = None
         for s in specs:
-            m = exc_matches(exc, s.cls)
+            m = spec_matches(exc, s.cls)
             if m is True:
                 ok = True
                 if s.when is not None:
